@@ -30,7 +30,7 @@ def conditions(tier):
                              fixed=dict(l2=0, l3=0, eol=eol), timeout=T, name='malformed[1 line, %s]' % ('LF', 'CRLF')[eol],
                              bounds='%d first lines x %d following lines, %s line ends' % (H.N_FIRST, H.N_LINES, ('LF', 'CRLF')[eol])))
     # 2 body lines, partitioned by first line
-    firsts = (0, 2, 5, 10, 18, 20, 24, 28) if quick else range(H.N_FIRST)
+    firsts = (0, 2, 5, 10, 18, 20, 24, 29) if quick else range(H.N_FIRST)
     for f in firsts:
         conds.append(ch.Cond('h_c11', 'malformed', [('l1', 'int'), ('l2', 'int')],
                              pre=['0 <= l1 < %d' % H.N_LINES, '0 <= l2 < %d' % H.N_LINES],
@@ -64,7 +64,7 @@ def run(report, tier, seed, only=None):
     report.assume(
         'comment texts are assembled from a vocabulary of %s first lines and %s following lines (well-formed and malformed) '
         'chosen by integer inputs; arbitrary strings are outside the bounds (DESIGN section 1: CrossHair cannot drive '
-        'symbolic strings through the regex state machine)' % ('30', '71'),
+        'symbolic strings through the regex state machine)' % ('30', '78'),
         'as in the statement: line numbers are checked for blocks whose opening token stands alone on its line; carets are '
         'not checked for deprecated tag-style annotation lines',
         'an internal exception turned into the "unrecoverable parse error" diagnostic by parse_comment_blocks is a logged '
